@@ -9,6 +9,7 @@ from ..vra.values import *
 from ..vra.stdsum import split_enum
 from ..vra.types import INT_TYS
 from .grammar import *
+from ..trace import suffix_parser_contract
 
 TLF = "parser::tlf::TypeLengthField"
 TY = "parser::tlf::Ty"
@@ -141,7 +142,7 @@ def run_rules(ctx, F, A, X):
     # ---- Option<T>
     check_option(ctx, F, A, X)
     # ---- list loop
-    check_list(ctx, F, A)
+    check_list(ctx, F, A, X)
     # ---- values: "every integer value and sign, byte string, ... is preserved" -- the structural value rules of C12
     from . import c12
     ctx.rule("R-C12-*", "value exactness of TLF lengths, integers (right-aligned copy, sign fill, from_be_bytes), booleans and octet strings "
@@ -436,35 +437,97 @@ def check_option(ctx, F, A, X):
             ctx.violation("R-C03-OPT", nm, where, "Option<T> parser, %s case: %s" % (nm, "; ".join(sorted(set(bad))) or "path missing"))
 
 
-def check_list(ctx, F, A):
+def check_list(ctx, F, A, X=None):
+    """The value list: exactly tlf.len entries are parsed, each from the rest left by the previous one, each pushed once in
+    order, and the rest of the last one is returned.  Decided with ghost counters kept in the abstract memory (number of
+    entries parsed / pushed, offset of the expected next input), so the loop may be written in any form."""
+    ip = A.ip
+    X = X or Extractor(A, F)
     body = find_impl_body(F, SPT, "parse_with_tlf", "std::vec::Vec<parser::common::ListEntry>")
     where = (body["span"]["file"], body["span"]["line"], body["def"])
-    cfg = CFG(body)
-    ok = False
-    why = "no loop"
-    for head, lbody in cfg.loops().items():
-        calls = {n: body["blocks"][n]["term"] for n in lbody if body["blocks"][n]["term"]["k"] == "call"}
-        nexts = [n for n, t in calls.items() if any(x.endswith("Range<A>>::next") for x in callee_names(t))]
-        parses = [n for n, t in calls.items() if (t.get("callee") or {}).get("trait") == SP and "ListEntry" in (t["callee"].get("path_with_args") or "")]
-        pushes = [n for n, t in calls.items() if any(x.endswith("Vec::<T, A>::push") for x in callee_names(t))]
-        if len(nexts) == 1 and len(parses) == 1 and len(pushes) == 1:
-            every_cycle = all(not any(head in cfg.reachable_from(s, avoid={c}) for s in cfg.succ[head] if s in lbody and s != c)
-                              for c in (parses[0], pushes[0]))
-            # the range runs from 0 to tlf.len: the Range aggregate feeding into_iter
-            rng_ok = False
-            for blk in body["blocks"]:
-                for st in blk["stmts"]:
-                    if st["k"] == "assign" and st["rv"]["k"] == "aggregate" and st["rv"].get("def") == "std::ops::Range":
-                        a, b = st["rv"]["ops"]
-                        if a.get("v") == 0 and b["k"] in ("copy", "move"):
-                            src = defining_field(body, b["place"])
-                            rng_ok = src == "len"
-            ok = every_cycle and rng_ok
-            why = "each iteration must parse and push exactly one entry and the range must be 0..tlf.len (cycle=%s, range=%s)" % (every_cycle, rng_ok)
+    G_P, G_V, G_C = ("G", "c03-parsed"), ("G", "c03-pushed"), ("G", "c03-chain")
+    fn = [f["name"] for f in F.adts[TLF]["variants"][0]["fields"]]
+    bad = []
+
+    def is_entry_parse(callee):
+        return callee.get("trait") == SP and callee.get("method") == "parse" and "ListEntry" in (callee.get("path_with_args") or ty_name(callee))
+
+    def ty_name(callee):
+        st_ = callee.get("self_ty") or {}
+        return st_.get("s", "") or ""
+
+    def on_call(ip_, frame, bb, t, st, callee, args):
+        if G_P not in st.mem:
+            return
+        if is_entry_parse(callee):
+            a0 = args[0] if args else None
+            root0 = st.ghost.get("c03-root")
+            if not (isinstance(a0, VSlice) and root0 == (a0.root, a0.steps) and st.prove_eq0(a0.start - st.mem[G_C].lin)):
+                st.ghost["c03-bad"] = max(st.ghost.get("c03-bad", 0), 1)
+        r = (callee.get("resolved") or callee)["def"]
+        if r.endswith("Vec::<T, A>::push"):
+            p_, v_ = st.mem[G_P].lin, st.mem[G_V].lin
+            last = st.ghost.get("c03-last")
+            if not st.prove_eq0(p_ - v_ - 1) or last is None or args[1] != last:
+                st.ghost["c03-bad"] = max(st.ghost.get("c03-bad", 0), 2)
+            st.mem[G_V] = VInt(v_ + 1, 64, False)
+
+    def on_res(ip_, frame, bb, t, callee, args, outs):
+        if not is_entry_parse(callee):
+            return
+        for s2, rv in outs:
+            if G_P not in s2.mem:
+                continue
+            okp = ok_payload(ip_, s2, rv)
+            if okp is None:
+                continue
+            if not s2.prove_eq0(s2.mem[G_P].lin - s2.mem[G_V].lin):
+                s2.ghost["c03-bad"] = max(s2.ghost.get("c03-bad", 0), 3)
+            s2.mem[G_P] = VInt(s2.mem[G_P].lin + 1, 64, False)
+            s2.mem[G_C] = VInt(okp[0].start, 64, False)
+            s2.ghost["c03-last"] = okp[1]
+    ip.on_call.append(on_call)
+    ip.on_call_result.append(on_res)
+    old_c = dict(ip.contracts)
+    ip.contracts[(SP, "parse")] = suffix_parser_contract
+    n_ok = 0
+    try:
+        st = ip.new_state()
+        args = ip.fresh_args(body, {}, st)
+        inp = args[0]
+        tlf = ip.read_raw(st, args[1].root, args[1].steps)
+        ln = tlf.elems[fn.index("len")].lin
+        st.mem[G_P] = cint(0, 64, False)
+        st.mem[G_V] = cint(0, 64, False)
+        st.mem[G_C] = VInt(inp.start, 64, False)
+        st.ghost["c03-root"] = (inp.root, inp.steps)
+        paths = X.paths(body, args=args, st=st)
+    finally:
+        ip.on_call.remove(on_call)
+        ip.on_call_result.remove(on_res)
+        ip.contracts.clear()
+        ip.contracts.update(old_c)
+    for p in paths:
+        s2 = p["st"]
+        okp = ok_payload(ip, s2, p["ret"])
+        if okp is None:
+            continue
+        n_ok += 1
+        why = {1: "an entry is not parsed from the rest left by the previous entry",
+               2: "a value other than the entry just parsed is pushed, or an entry is pushed twice / skipped",
+               3: "an entry is parsed before the previous one was pushed"}.get(s2.ghost.get("c03-bad"))
+        if why is None and not (s2.prove_eq0(s2.mem[G_P].lin - ln) and s2.prove_eq0(s2.mem[G_V].lin - ln)):
+            why = "the number of entries parsed and pushed must equal the list length of the TLF (parsed %s, pushed %s, length %s)" % (
+                s2.describe(s2.mem[G_P].lin), s2.describe(s2.mem[G_V].lin), s2.describe(ln))
+        if why is None and not (isinstance(okp[0], VSlice) and okp[0].root == inp.root and s2.prove_eq0(okp[0].start - s2.mem[G_C].lin)):
+            why = "the returned rest is not the rest left by the last entry"
+        if why:
+            bad.append(why)
     ctx.count("R-C03-LIST")
+    ok = n_ok > 0 and not bad
     ctx.oblig(ok)
     if not ok:
-        ctx.violation("R-C03-LIST", "complete", where, "list parser: " + why)
+        ctx.violation("R-C03-LIST", "complete", where, "list parser: " + (bad[0] if bad else "no successful path"))
 
 
 def defining_field(body, place, depth=0):
